@@ -1052,6 +1052,58 @@ def input_assertions(rep, prog, qnames, rule="ASSERT.input"):
     rep.analysed["assert statements inspected"] = n
 
 
+INDEX_PRODUCERS = ("np.flatnonzero", "numpy.flatnonzero", "np.argwhere", "numpy.argwhere", "np.argsort", "numpy.argsort", "np.arange", "numpy.arange")
+
+
+def _index_array_expr(e, index_funcs=()):
+    """the expression is an array of positions / node labels: np.flatnonzero(m), np.where(m)[k], np.nonzero(m)[k], np.argwhere(m), a call of a repository
+    function that returns one of these"""
+    if isinstance(e, ast.Call):
+        d = dotted_of(e.func) or ""
+        if d in INDEX_PRODUCERS:
+            return True
+        nm = d.split(".")[-1]
+        return nm in index_funcs and nm not in ("where", "nonzero")
+    if isinstance(e, ast.Subscript) and isinstance(e.value, ast.Call) and (dotted_of(e.value.func) or "") in ("np.where", "numpy.where", "np.nonzero", "numpy.nonzero") and len(e.value.args) == 1:
+        return True
+    return False
+
+
+def index_truthiness(rep, prog, qnames, rule="TRAP.any-of-indices"):
+    """`.any()` / `.all()` / any() / all() / np.any() of an array of positions: position 0 is falsy, so "is there an element" is answered with "is there an
+    element other than node 0" - the emptiness test that was right for the boolean mask is wrong for the index array made from it"""
+    # repository functions (by simple name) whose every return hands out an index array
+    index_funcs = set()
+    for f in prog.funcs.values():
+        rets = [n for n in ast.walk(f.node) if isinstance(n, ast.Return) and n.value is not None]
+        if rets and all(_index_array_expr(r.value) for r in rets):
+            index_funcs.add(f.name)
+    n = 0
+    for q in sorted(qnames):
+        f = prog.funcs.get(q)
+        if f is None or f.module.name.startswith("drf"):
+            continue
+        names = set()
+        for node in ast.walk(f.node):
+            if isinstance(node, ast.Assign) and len(node.targets) == 1 and isinstance(node.targets[0], ast.Name) and _index_array_expr(node.value, index_funcs):
+                names.add(node.targets[0].id)
+        for node in ast.walk(f.node):
+            if not isinstance(node, ast.Call):
+                continue
+            subject = None
+            d = dotted_of(node.func) or ""
+            if isinstance(node.func, ast.Attribute) and node.func.attr in ("any", "all") and not node.args and not (isinstance(node.func.value, ast.Name) and node.func.value.id in ("np", "numpy")):
+                subject = node.func.value
+            elif d in ("any", "all", "np.any", "np.all", "numpy.any", "numpy.all") and len(node.args) == 1:
+                subject = node.args[0]
+            if subject is None:
+                continue
+            n += 1
+            if (isinstance(subject, ast.Name) and subject.id in names) or _index_array_expr(subject, index_funcs):
+                rep.bad(rule, fwhere(f, node), "`%s` asks whether some position is non-zero, not whether there is one: an index array holding only position / node 0 counts as empty" % norm(node)[:80])
+    rep.analysed["any()/all() sites inspected for index arrays"] = n
+
+
 def python_traps(rep, prog, qnames, rule="TRAP"):
     """Python / numpy idioms that run without an error and mean something else, looked for in every function the check analysed:
     np.all / np.any of a generator expression (always True); a value taken from a method that returns None (`x = x.sort()`,
